@@ -363,8 +363,9 @@ Example C18_nonvacuous :
   verifies Z (zn_padd 13) (zn_smul 13) (zn_x 13) 1 13 (zn_smul 13 5 1) 9 4 9 = Ok true /\
   verifies Z (zn_padd 13) (zn_smul 13) (zn_x 13) 1 13 (zn_smul 13 5 1) 10 4 4 = Ok false /\
   (* end to end through DER *)
-  (exists sig, sign_digest Z (zn_smul 13) (zn_x 13) 1 13 sigencode_der 5 [x09] 4 true = SOk sig /\
-     verify_digest Z (zn_padd 13) (zn_smul 13) (zn_x 13) 1 13 sigdecode_der (zn_smul 13 5 1) sig [x09] true = SOk true) /\
+  (let sig := [x30; x06; x02; x01; x04; x02; x01; x04] in
+   sign_digest Z (zn_smul 13) (zn_x 13) 1 13 sigencode_der 5 [x90] 4 true = SOk sig /\
+   verify_digest Z (zn_padd 13) (zn_smul 13) (zn_x 13) 1 13 sigdecode_der (zn_smul 13 5 1) sig [x90] true = SOk true) /\
   (* the hmac hypotheses are satisfiable and generate_k returns a value in range *)
   (forall key m, Z.of_N (blen (toy_hmac tt key m)) = 2) /\
   (exists k, generate_k unit toy_hmac (fun _ => 2) 50 13 5 tt [x09; x2a] 0 [] = Ok k /\ 1 <= k <= 12).
@@ -372,8 +373,8 @@ Proof.
   split; [exact (zn_group_laws 13 prime_13)|].
   split; [vm_compute; reflexivity|]. split; [vm_compute; reflexivity|].
   split; [vm_compute; reflexivity|]. split; [vm_compute; reflexivity|].
-  split; [eexists; split; vm_compute; reflexivity|].
+  split; [split; vm_compute; reflexivity|].
   split; [intros key m; unfold toy_hmac; rewrite be_blen; reflexivity|].
-  eexists. split; [vm_compute; reflexivity | split; discriminate].
+  exists 8. split; [vm_compute; reflexivity | split; discriminate].
 Qed.
 Print Assumptions C18_nonvacuous.
